@@ -829,3 +829,30 @@ Check export_map_exact_addpath_history :
     run_changes x pol emax raddr cid cs (EAddPath []) = Ok r ->
     (has_entry (view_after (fst r) d pid None) = true <-> was_sent_path (snd r) d pid).
 Print Assumptions export_map_exact_addpath_history.
+
+(* The caller.  PeerSession::handle_prefix_update (model run_updates: nothing for a family that
+   was not negotiated, else process_nlri_change with the session's own parameters) feeds the
+   family's PendingTx, where the last operation for a key wins (model pending_after).  Every
+   announcement that is queued for the wire, along any run, is an advertisement in the sense of
+   the statements above - so they all hold of what drain_messages hands to the encoder. *)
+Theorem queued_announcements_are_advertised :
+  forall x pol emax raddr cid cs e r ap d key nh a,
+    run_updates true x (lift_policy pol) emax raddr cid cs e = Ok r ->
+    pending_after ap (fst r) d key PNothing = PReach nh a ->
+    exists c e' pid s, In c cs /\ advertised x pol emax raddr cid c e' d pid nh a s.
+Proof. exact C09_queued_announcements_are_advertised. Qed.
+Check queued_announcements_are_advertised :
+  forall x pol emax raddr cid cs e r ap d key nh a,
+    run_updates true x (lift_policy pol) emax raddr cid cs e = Ok r ->
+    pending_after ap (fst r) d key PNothing = PReach nh a ->
+    exists c e' pid s, In c cs /\ advertised x pol emax raddr cid c e' d pid nh a s.
+Print Assumptions queued_announcements_are_advertised.
+
+Theorem family_not_negotiated_sends_nothing :
+  forall x polr emax raddr cid cs e,
+    run_updates false x polr emax raddr cid cs e = Ok ([], e).
+Proof. exact run_updates_no_family. Qed.
+Check family_not_negotiated_sends_nothing :
+  forall x polr emax raddr cid cs e,
+    run_updates false x polr emax raddr cid cs e = Ok ([], e).
+Print Assumptions family_not_negotiated_sends_nothing.
